@@ -113,6 +113,13 @@ class Pool:
                        PixCoord(float(cr[0]) + 1.5, float(cr[1]) - 2.25),
                        PixCoord(cr[0] + nrng.uniform(-80, 80, (3, 4)), cr[1] + nrng.uniform(-80, 80, (3, 4)))]
         self.skycoords = [self.wcs.pixel_to_world(self.coords[0].x, self.coords[0].y), self.wcs.pixel_to_world(self.coords[1].x, self.coords[1].y)]
+        with warnings.catch_warnings():
+            warnings.simplefilter('ignore')
+            parsed = Regions.parse(f'image\ncircle({cr[0]:.1f},{cr[1]:.1f},7) # color=green width=2 tag={{a}}\n'
+                                   f'annulus({cr[0] + 9:.1f},{cr[1]:.1f},3,8) # color=green\nbox({cr[0]:.1f},{cr[1] - 8:.1f},9,5,30) # color=red dash=1\n'
+                                   f'point({cr[0] + 3:.1f},{cr[1] + 4:.1f}) # point=x 9 color=green\ntext({cr[0]:.1f},{cr[1]:.1f}) # text={{lbl}} color=green',
+                                   format='ds9').regions
+        self.pix.extend(parsed)             # visual as the DS9 reader produces it (default_style 'ds9', colour names)
         self.lists = [Regions(list(self.pix[:5])), Regions(list(self.sky[:3])), Regions([self.pix[0], self.sky[0], self.pix[3]]),
                       Regions(list(self.pix))]
         self.masks = []
